@@ -217,12 +217,27 @@ impl PG {
                 return json!({"defs": defs, "actor": actor});
             }
         }
-        let actor = match self.rng.gen_range(0..5) {
+        let mut actor = match self.rng.gen_range(0..5) {
             0 => json!({"k": "none"}),
             1 | 2 => self.serv(&names, 2),
             3 => { let s = self.serv(&names, 2); let a = self.args(&names, 2); json!({"k": "class", "args": a, "t": s}) }
             _ => { let s = self.serv(&names, 2); if names.is_empty() || self.valid { s } else { self.var(&names) } }
         };
+        // names for names: a function type reached only through one or two renaming definitions, used as the type of a
+        // method (and a renamed data type used as an argument), in one valid program out of three
+        if self.valid && self.rng.gen_range(0..3) == 0 && !names.iter().any(|n| n.starts_with("Fn_")) {
+            let f = self.func(&names, 1);
+            defs.push(json!({"name": "Fn_1", "body": f, "doc": []}));
+            defs.push(json!({"name": "Gn_1", "body": {"k": "var", "n": "Fn_1"}, "doc": []}));
+            let hop2 = self.rng.gen_bool(0.4);
+            if hop2 { defs.push(json!({"name": "Hn_1", "body": {"k": "var", "n": "Gn_1"}, "doc": []})); }
+            let mt = json!({"k": "var", "n": if hop2 { "Hn_1" } else { "Gn_1" }});
+            let mname = if self.ident_methods { "via_alias" } else { "via alias" };
+            let serv = if actor["k"] == "class" { &mut actor["t"] } else { &mut actor };
+            if serv["k"] == "service" && !serv["ms"].as_array().unwrap().iter().any(|m| m["name"] == mname) {
+                serv["ms"].as_array_mut().unwrap().push(json!({"name": mname, "t": mt, "doc": []}));
+            }
+        }
         json!({"defs": defs, "actor": actor})
     }
 }
